@@ -54,16 +54,17 @@ P('C02', theorems=['Tcs.C02_spec', 'Tcs.C02_atomic_compare_append', 'Tcs.C02_new
   plan={'quick': [hist('default', 220, LIBHTTP), sched(60, mix='av', corpus='0')], 'thorough': [hist('default', 4000, LIBHTTP), sched(1500, mix='av', corpus='0')]})
 P('C07', theorems=['Tcs.C07_immutable', 'Tcs.C07_prefix', 'Tcs.C07_immutable_sql', 'Tcs.C07_immutable_mem'],
   owned={'gcv.kind', 'gcv.ids', 'gcv.payload'},
-  oracles=[O.o_c07],
-  plan={'quick': [hist('c07', 220, LIBHTTP)], 'thorough': [hist('c07deep', 2500, LIBHTTP)]})
+  oracles=[O.o_c07, relabel(O.o_c03, 'C07: a version, once accepted, is returned unchanged by every later GetChildVersion of its parent, also when requests overlap')],
+  plan={'quick': [hist('c07', 220, LIBHTTP), sched(60, mix='gcvav', corpus='0')], 'thorough': [hist('c07deep', 2500, LIBHTTP), sched(1500, mix='gcvav', corpus='0')]})
 P('C08', theorems=['Tcs.C08_decision', 'Tcs.C08_matches_add_version', 'Tcs.C08_found_is_the_child', 'Tcs.C08_latest_not_found', 'Tcs.C08_on_backend'],
   owned={'gcv.kind', 'av.kind', 'http.status.gcv', 'http.status.av'},
   oracles=[O.o_c08, relabel(O.o_c03, 'C08: GetChildVersion answers not-found / gone exactly as an AddVersion at that moment would be accepted / rejected, also when requests overlap')],
   plan={'quick': [hist('c08', 220, LIBHTTP), sched(60, mix='gcvav', corpus='0')], 'thorough': [hist('c08', 3000, LIBHTTP), sched(1500, mix='gcvav', corpus='0')]})
 P('C10', theorems=['Tcs.C10_accept_iff', 'Tcs.C10_window_five', 'Tcs.C10_told_success', 'Tcs.C10_effect', 'Tcs.C10_on_chain', 'Tcs.C10_moves_forward', 'Tcs.C10_anc_grows', 'Tcs.C10_on_backend'],
   owned={'snap.accept', 'dump.own.snap', 'dump.own.since', 'dump.own.ts', 'dump.own.data', 'as.kind'},
-  oracles=[O.o_c10],
-  plan={'quick': [hist('c10', 260, 'mem:lib,sql:lib,sql:http')], 'thorough': [hist('c10', 5000, 'mem:lib,sql:lib,sql:http')]})
+  oracles=[O.o_c10, relabel(O.o_c03, 'C10: a snapshot is accepted exactly when the four conditions hold at that moment and the stored snapshot only moves forward, also when requests overlap')],
+  plan={'quick': [hist('c10', 260, 'mem:lib,sql:lib,sql:http'), sched(120, mix='asav', corpus='0', minprefill='3')],
+        'thorough': [hist('c10', 5000, 'mem:lib,sql:lib,sql:http'), sched(1500, mix='asav', corpus='0', minprefill='3')]})
 P('C11', theorems=['Tcs.asRunH_lastSnap', 'Tcs.C11_latest_snapshot', 'Tcs.C11_usable_base', 'Tcs.walkOuts_from_base'],
   owned={'snap.vid', 'snap.payload', 'gs.kind', 'gcv.kind'},
   oracles=[O.o_c11],
@@ -123,8 +124,8 @@ P('C14', theorems=['Tcs.C14_decode_respond', 'Tcs.C14_handler_uses_respond', 'Tc
   oracles=[O.o_c14_table],
   aligned=[('mem:http', 'mem:lib', 'C14: every HTTP response decodes to exactly the library outcome of the same request on a twin storage'),
            ('sql:http', 'sql:lib', 'C14: every HTTP response decodes to exactly the library outcome of the same request on a twin storage')],
-  plan={'quick': [hist('default', 200, 'mem:http,mem:lib,sql:http,sql:lib'), grammar(8, 120, wf='1', lists='none')],
-        'thorough': [hist('default', 3000, 'mem:http,mem:lib,sql:http,sql:lib'), grammar(64, 300, wf='1', lists='none')]})
+  plan={'quick': [hist('default', 200, 'mem:http,mem:lib,sql:http,sql:lib'), hist('mid', 8, 'mem:http,mem:lib'), grammar(8, 120, wf='1', lists='none')],
+        'thorough': [hist('default', 3000, 'mem:http,mem:lib,sql:http,sql:lib'), hist('mid', 120, 'mem:http,mem:lib,sql:http,sql:lib'), grammar(64, 300, wf='1', lists='none')]})
 P('C15', theorems=['Tcs.C15_refused', 'Tcs.C15_unknown_route', 'Tcs.C15_refused_no_storage', 'Tcs.C15_limit_inclusive', 'Tcs.C15_oversized', 'Tcs.C15_no_5xx', 'Tcs.serve_factor'],
   owned={'http.status', 'noop.dump', 'calls.txns'},
   oracles=[O.o_c15],
@@ -142,7 +143,8 @@ P('C20', theorems=['Tcs.C20_all_responses', 'Tcs.C20_value', 'Tcs.C20_wrapper_id
 P('C06', theorems=['Tcs.C06_assemble', 'Tcs.C06_chunking_irrelevant', 'Tcs.C06_split_anywhere', 'Tcs.C06_version_roundtrip', 'Tcs.C06_snapshot_roundtrip', 'Tcs.C06_response_body', 'Tcs.assemble_spec'],
   owned={'gcv.payload', 'snap.payload', 'http.body.gcv', 'http.body.gs', 'gcv.ids', 'snap.vid'},
   oracles=[O.o_c06],
-  plan={'quick': [hist('c06', 120, 'mem:http,sql:http,sqlre:lib')], 'thorough': [hist('c06', 1500, 'mem:http,sql:http,sqlre:lib')]})
+  plan={'quick': [hist('c06', 120, 'mem:http,sql:http,sqlre:lib'), hist('mid', 8, 'mem:http,sql:http'), hist('c06', 24, 'mem:http,sql:http', stall='1')],
+        'thorough': [hist('c06', 1500, 'mem:http,sql:http,sqlre:lib'), hist('mid', 120, 'mem:http,sql:http'), hist('c06', 300, 'mem:http,sql:http', stall='1')]})
 
 # ---------------------------------------------------------------------------------------------------
 
